@@ -173,7 +173,8 @@ def validateOutAndKeys (a : TableArgs) (l r : Frame) : Except PyErr Unit := do
   validateKeyAttr a.lKey l
   validateKeyAttr a.rKey r
 
-/-- result frame of a join / filter_tables: `_id` first -/
+/-- result frame of a join / filter_tables: `_id` first (the frame `output_table.insert(0, '_id', …)`
+    leaves behind when it succeeds) -/
 def finish (header : List String) (chunks : List (List Row)) (missing : Option (List Row)) : Frame :=
   let parts := chunks ++ (match missing with | some m => [m] | none => [])
   let rows := parts.flatten
@@ -181,7 +182,19 @@ def finish (header : List String) (chunks : List (List Row)) (missing : Option (
     index := parts.flatMap (fun p => (List.range p.length).map (fun (i : Nat) => Cell.int i))
     rows := rows.zipIdx.map (fun ((r, i) : Row × Nat) => Cell.int i :: r) }
 
-/-- projection, chunking, per-chunk work, concat, missing pairs, `_id` — the part after the
+/-- the last statement of every join / `filter_tables`: `output_table.insert(0, '_id', range(…))`.
+    pandas raises `ValueError: cannot insert _id, already exists` (`PyErr.other`) iff the output header
+    (prefixed keys, prefixed output attributes, `_sim_score`) already has a column named `_id`; other
+    duplicate labels are accepted. -/
+def finishPy (header : List String) (chunks : List (List Row)) (missing : Option (List Row)) : Except PyErr Frame :=
+  if "_id" ∈ header then .error .other else .ok (finish header chunks missing)
+
+/-- every join cell (column `j`) of a projected array can be handed to the tokenizer: it is a `str`
+    (rows with a missing join value have been dropped from the array; a missing cell would be harmless) -/
+def joinCellsOk (rows : List Row) (j : Nat) : Bool := rows.all (fun row => (row.cell j).strOrMissing)
+
+/-- projection, (tokenizer's TypeError on a non-string join value,) chunking, per-chunk work, concat,
+    missing pairs, `_id` (ValueError when the header already has `_id`) — the part after the
     validations that all `*_join_py` and `filter_tables` bodies share -/
 def runTables (a : TableArgs) (l r : Frame) (allowMissing outSimScore : Bool) (cpu : Int)
     (work : OutCfg → Nat → Nat → List Row → List Row → List Row) : Except PyErr Frame := do
@@ -196,25 +209,27 @@ def runTables (a : TableArgs) (l r : Frame) (allowMissing outSimScore : Bool) (c
                       rOut := findOutputAttributeIndices rProj rOut,
                       hasOut := lOut.isSome || rOut.isSome }
   let header := getOutputHeader a.lKey a.rKey lOut rOut a.lPre a.rPre ++ (if outSimScore then ["_sim_score"] else [])
+  -- every per-chunk worker tokenizes all join values of the left array and of its right chunk before it
+  -- assembles any output: a present value that is not a `str` makes the tokenizer raise
+  -- `TypeError: Input is expected to be a string` (also when the other table is empty)
+  raiseIf (!(joinCellsOk lArr (lProj.idxOf a.lAttr) && joinCellsOk rArr (rProj.idxOf a.rAttr))) .typeErr
   let chunks ← (chunksFor rArr a.nJobs cpu).mapM (fun ch =>
       mkRows (work o (lProj.idxOf a.lAttr) (rProj.idxOf a.rAttr) lArr ch) header)
   let missing ← if allowMissing then
       (getPairsWithMissingValue l r a.lKey a.rKey a.lAttr a.rAttr lOut rOut a.lPre a.rPre outSimScore).map
         (fun p => some p.2)
     else pure none
-  return finish header chunks missing
+  finishPy header chunks missing
 
 /-- outcome of an API call: result or exception, and the tokenizer's flag afterwards -/
 structure Outcome where
   result : Except PyErr Frame
   flagAfter : Bool
 
-/-- run `body` with the tokenizer's `return_set` forced to `want`; restore afterwards
-    (only when the body returns normally — an exception propagates with the flag switched) -/
-def withFlag (t : TokObj) (want : Bool) (body : Except PyErr Frame) : Outcome :=
-  match body with
-  | .ok f => { result := .ok f, flagAfter := t.returnSet }
-  | .error e => { result := .error e, flagAfter := want }
+/-- run `body` with the tokenizer's `return_set` forced to `want`; the flag is restored afterwards, also when the body
+    raises (`try: … finally:` in every `*_join_py`); `want` only matters inside the body -/
+def withFlag (t : TokObj) (_want : Bool) (body : Except PyErr Frame) : Outcome :=
+  { result := body, flagAfter := t.returnSet }
 
 /-! ### jaccard / cosine / dice joins -/
 structure JoinArgs extends TableArgs where
@@ -307,6 +322,20 @@ def filterPair (k : FilterKind) (f : FilterObj) (tok : String → List Tok) (l r
   | .prefix => prefixFilterPair f tok l r
   | .position => positionFilterPair f tok l r
   | .suffix => suffixFilterPair f tok l r
+
+/-- `filter_pair(lstring, rstring)` as a Python call: unless one of the values is missing (then the
+    method returns before tokenizing), both values are handed to `tokenizer.tokenize`, which raises
+    `TypeError` for anything that is not a `str` -/
+def filterPairPy (k : FilterKind) (f : FilterObj) (tok : String → List Tok) (l r : Cell) : Except PyErr Bool :=
+  if !(l.isMissing || r.isMissing) && !(l.isStr && r.isStr) then .error .typeErr
+  else .ok (filterPair k f tok l r)
+
+/-- `OverlapFilter.filter_pair` as a Python call: returns before tokenizing when a value is missing or
+    falsy (`(not lstring) or (not rstring)` — so `0`, `0.0`, `False`, `''` never reach the tokenizer);
+    otherwise `tokenizer.tokenize` raises `TypeError` for a non-`str` -/
+def overlapFilterPairPy (f : OverlapFilterObj) (tok : String → List Tok) (l r : Cell) : Except PyErr Bool :=
+  if !(l.isMissing || r.isMissing) && !(l.falsy || r.falsy) && !(l.isStr && r.isStr) then .error .typeErr
+  else .ok (overlapFilterPair f tok l r)
 
 /-! ### OverlapFilter and overlap_join -/
 def mkOverlapFilter (overlapSize : PyV) (compOp : String) (allowMissing : Bool) (t : TokObj) :
